@@ -119,6 +119,26 @@ CHECKS = {
               "and the module-level load(): TLC validates that only the complete file loads, and to the saved sketch."),
         note="torn images (unpatched header with later bytes present) are explored in the model only",
         technique="TLA+ crash-point model checked by TLC; exhaustive prefix enumeration validated as a trace"),
+    "C08": dict(
+        category="model_checking", design_ref="DESIGN.md 4.8",
+        text=("ParallelAdd.tla models the bounded queue, the filler, N workers, the polling monitor, joins and pairwise merge rounds, "
+              "one action per blocking point.  TLC checks ExactlyOnce / ResultIsWholeStream / QueueBounded on every schedule and "
+              "Termination under weak fairness (N 1..4, up to 5-6 items).  Each terminal outcome (a dequeue assignment) is replayed "
+              "against the REAL parallel_add/_worker/_fill_queue/parallel_merging code and real shared-memory sketches under a "
+              "deterministic in-process scheduler; the returned HLL is compared register for register with the sequential sketch, "
+              "n_added/n_records with the specification, and the returned cms/hh tables are validated by the sketch trace specs "
+              "(C01/C03/C04 invariants against the whole stream).  Worker counts 5..9 exercise the carried-over sketch.  Real spawned "
+              "runs (generator input) are validated against the specification under their recorded assignment."),
+        note="trusted: the in-process stand-in for multiprocessing (fakemp, ~250 lines), cross-checked by real spawned runs; FIFO queue",
+        technique="TLA+ spec + TLC (safety and liveness); replay of TLC terminal outcomes into the real code; trace validation of real runs"),
+    "C19": dict(
+        category="model_checking", design_ref="DESIGN.md 4.19",
+        text=("ParallelAdd.tla with fault actions: callbacks raising before/after touching the sketches on chosen items and one worker "
+              "dying on its k-th item.  TLC checks RaiseKeepsOthers, DeathNeverReturns and Termination on all schedules; the terminal "
+              "outcomes are replayed against the real worker and monitor loops in-process (a hang of the real code is detected as "
+              "'no runnable process'); a real spawned run with os._exit(1) in a worker must end in an exception within a time bound."),
+        note="in-process death = uncaught BaseException in the worker thread (exit code 1); the monitor pass is modelled as atomic",
+        technique="TLA+ spec with fault actions + TLC; replay of outcomes into the real code; real fault-injection run"),
 }
 
 NOT_APPLICABLE = {
